@@ -482,6 +482,17 @@ func (w *world) defective(cd *cdoc, df string) ([]byte, error) {
 	case "vm-id-not-thumbprint":
 		vm0["id"] = didStr + "#key-1"
 		replaceRefs(o, id0, didStr+"#key-1")
+	case "vm-id-extended-did":
+		// the id belongs to ANOTHER DID, one that merely starts with the document's DID
+		vm0["id"] = didStr + "x#" + frag0
+		replaceRefs(o, id0, didStr+"x#"+frag0)
+	case "vm-id-kid-not-thumbprint":
+		// the fragment is not the key thumbprint, but the JWK announces that fragment as its own "kid"
+		vm0["id"] = didStr + "#key-1"
+		replaceRefs(o, id0, didStr+"#key-1")
+		if j, ok := vm0["publicKeyJwk"].(map[string]any); ok {
+			j["kid"] = "key-1"
+		}
 	case "vm-null":
 		o["verificationMethod"] = []any{nil}
 		for _, rel := range []string{"assertionMethod", "capabilityInvocation"} {
@@ -497,6 +508,10 @@ func (w *world) defective(cd *cdoc, df string) ([]byte, error) {
 		s0["id"] = didStr
 	case "svc-id-foreign-prefix":
 		s0["id"] = other + "#s9"
+	case "svc-id-extended-did":
+		s0["id"] = didStr + "x#s9"
+	case "svc-id-did-with-path":
+		s0["id"] = didStr + "/some/path#s9"
 	case "svc-id-duplicate":
 		dup := deepCopy(s0)
 		dup["type"] = "type-other"
